@@ -23,12 +23,12 @@
 (***************************************************************************)
 EXTENDS Naturals, Sequences, FiniteSets, TLC, Json
 
-CONSTANTS MaxHeadings, MaxLevel
+CONSTANTS MaxHeadings, MaxLevel, VariantSet
 
 VARIABLES levels, variants, phase
 vars == <<levels, variants, phase>>
 
-Variants == 1..6
+Variants == VariantSet      \* subset of 1..6
 Word(i) == <<"one", "two", "three", "four", "five", "six">>[i]
 Title(i, v) == CASE v \in {1, 4} -> Word(i) \o " plain"
                  [] v \in {2, 5} -> "ex" \o Word(i) \o " box"
